@@ -148,10 +148,7 @@ func (ob *Observer) observeTable(d Driver, mc *MClient, u *TableUni) *ObsTable {
 	for _, ix := range def.Indexes {
 		oi := &ObsIndex{Parts: map[string]Seq{}}
 		oi.Scan = seqOf(ob.exec(d, &Cmd{Op: "Scan", T: u.Name, Index: ix.Name}))
-		vals := u.IdxVals[ix.Hash.Name]
-		if ix.Hash.Name == def.Hash.Name {
-			vals = u.HashVals
-		}
+		vals := idxPartVals(u, def, ix)
 		for _, h := range vals {
 			if h.T != ix.Hash.Type {
 				continue
@@ -286,10 +283,7 @@ func CompareModel(w *World, mc *MClient, obs ObsClient) []Diff {
 			if c, ok := ot.Desc.IdxCount[ix.Name]; ok && c >= 0 && c != int64(len(wantAll)) {
 				out = append(out, Diff{u.Name, "idx-count", ix.Name, fmt.Sprintf("index ItemCount %d, model %d", c, len(wantAll))})
 			}
-			vals := u.IdxVals[ix.Hash.Name]
-			if ix.Hash.Name == mt.Def.Hash.Name {
-				vals = u.HashVals
-			}
+			vals := idxPartVals(u, mt.Def, ix)
 			for _, pk := range sortedKeys(oi.Parts) {
 				seq := oi.Parts[pk]
 				back := strings.HasSuffix(pk, "/b")
@@ -380,4 +374,15 @@ func DiffSignatures(a, b string) string {
 		}
 	}
 	return ""
+}
+
+// idxPartVals: the partition values to query an index by.
+func idxPartVals(u *TableUni, def TableDef, ix IndexDef) []AV {
+	switch {
+	case ix.Hash.Name == def.Hash.Name:
+		return u.HashVals
+	case def.Range != nil && ix.Hash.Name == def.Range.Name:
+		return u.RangeVals
+	}
+	return u.IdxVals[ix.Hash.Name]
 }
